@@ -416,3 +416,47 @@ B("c02x-response-drops-rhs-model", "C02", "R2.6", (TT, "        if isinstance(ot
 B("c02x-plus-negated-keeps-intercept", "C02", "R2.6", (TT, "        if isinstance(other, NegatedIntercept):\n            return self - Intercept()\n        elif isinstance(other, (Term, GroupSpecificTerm, Intercept)):\n            return self.add_term(other)", "        if isinstance(other, NegatedIntercept):\n            return self\n        elif isinstance(other, (Term, GroupSpecificTerm, Intercept)):\n            return self.add_term(other)"))
 S("c02x-benign-iterms-inline", "C02", (TT, "            products = product([self], other.common_terms)\n            iterms = [\n                Term(*deepcopy(p[0].components), *deepcopy(p[1].components)) for p in products\n            ]\n            return Model(*iterms)\n        else:  # pragma: no cover\n            return NotImplemented\n\n    def __truediv__",
                                         "            return Model(\n                *[Term(*deepcopy(p[0].components), *deepcopy(p[1].components)) for p in product([self], other.common_terms)]\n            )\n        else:  # pragma: no cover\n            return NotImplemented\n\n    def __truediv__"))
+
+# ------------------------------------------------------------------ round-4 machinery: benign and breaking forms of the same code
+_ZERO_OLD = ("        idxs_original = pd.Categorical(x, categories=self.levels).codes\n        idxs_modified = np.copy(idxs_original)\n"
+             "        idxs_modified[idxs_original == -1] = 0\n        contribution = self.contrast_matrix.matrix[idxs_modified]\n"
+             "        contribution[idxs_original == -1] = 0\n")
+S("r4-benign-zeroing-where-ge0", ['C10', 'C04', 'C06'], (CL, _ZERO_OLD,
+  "        idxs = pd.Categorical(x, categories=self.levels).codes\n        seen = idxs >= 0\n"
+  "        contribution = self.contrast_matrix.matrix[np.where(seen, idxs, 0)]\n        contribution[~seen] = 0\n"),
+  (VR, _ZERO_OLD,
+  "        idxs = pd.Categorical(x, categories=self.levels).codes\n        seen = idxs >= 0\n"
+  "        contribution = self.contrast_matrix.matrix[np.where(seen, idxs, 0)]\n        contribution[~seen] = 0\n"))
+S("r4-benign-zeroing-mask-product", ['C10', 'C04', 'C06'], (CL, _ZERO_OLD,
+  "        idxs = pd.Categorical(x, categories=self.levels).codes\n"
+  "        contribution = self.contrast_matrix.matrix[np.maximum(idxs, 0)] * (idxs != -1)[:, None]\n"),
+  (VR, _ZERO_OLD,
+  "        idxs = pd.Categorical(x, categories=self.levels).codes\n"
+  "        contribution = self.contrast_matrix.matrix[np.maximum(idxs, 0)] * (idxs != -1)[:, None]\n"))
+B("r4-zeroing-gt0", "C10", "R10.3", (VR, _ZERO_OLD,
+  "        idxs = pd.Categorical(x, categories=self.levels).codes\n        seen = idxs > 0\n"
+  "        contribution = self.contrast_matrix.matrix[np.where(seen, idxs, 0)]\n        contribution[~seen] = 0\n"))
+B("r4-zeroing-mask-recomputed-after-patch", "C10", "R10.3", (VR, _ZERO_OLD,
+  "        idxs = np.asarray(pd.Categorical(x, categories=self.levels).codes)\n        idxs[idxs == -1] = 0\n"
+  "        contribution = self.contrast_matrix.matrix[idxs]\n        contribution[idxs == -1] = 0\n"))
+S("r4-benign-extra-term-membership", ['C07'], (TT, "if name in encoding.keys()]", "if name in encoding]"))
+S("r4-benign-extra-term-sorted", ['C07'], (TT,
+  "    component_names = [component.name for component in term.components]\n    components = [term.get_component(name) for name in component_names if name in encoding.keys()]",
+  "    components = [component for component in term.components if component.name in set(encoding)]"))
+B("r4-extra-term-dict-order", "C07", "R7.7", (TT,
+  "    component_names = [component.name for component in term.components]\n    components = [term.get_component(name) for name in component_names if name in encoding.keys()]",
+  "    components = [term.get_component(name) for name in list(encoding)]"))
+S("r4-benign-gst-varnames-own-set", ['C09', 'C08', 'C11', 'C12'], (TT,
+  "        expr_names = self.expr.var_names.copy()\n        factor_names = self.factor.var_names.copy()\n        return expr_names.union(factor_names)",
+  "        names = set(self.expr.var_names)\n        names.update(self.factor.var_names)\n        return names"))
+S("r4-benign-gst-varnames-inplace-on-fresh", ['C09', 'C08', 'C11', 'C12'], (TT,
+  "        expr_names = self.expr.var_names.copy()\n        factor_names = self.factor.var_names.copy()\n        return expr_names.union(factor_names)",
+  "        names = self.expr.var_names\n        names |= self.factor.var_names\n        return names"),
+  note="every var_names implementation returns a fresh set, so updating the result in place is harmless")
+S("r4-benign-div-via-matmul-of-copies", ['C02', 'C04', 'C06', 'C17'], (TT,
+  "            return Model(self, Term(*deepcopy(self.components), *deepcopy(other.components)))",
+  "            return Model(self, deepcopy(self) @ deepcopy(other))"),
+  note="other is known not to be a number here (checked just above), so the nested raise cannot trigger")
+S("r4-benign-interaction-np-multiply", ['C04', 'C05', 'C09'], (UT, "            l.append(x[:, j1] * y[:, j2])", "            column = np.multiply(x[:, j1], y[:, j2])\n            l.append(column)"))
+B("r4-interaction-nan-to-num", "C09", "R9.5", (UT, "            l.append(x[:, j1] * y[:, j2])", "            l.append(np.nan_to_num(x[:, j1] * y[:, j2]))"),
+  note="classified as unknown element -> analysis error would also be acceptable")
